@@ -3,6 +3,7 @@ import TantivyModel.Proofs.AggSpecEq
 import TantivyModel.Proofs.AggTrunc
 import TantivyModel.Proofs.AggCut
 import TantivyModel.Proofs.AggExtStats
+import TantivyModel.Proofs.AggSpecPV
 /-!
 # C14 — Aggregations equal a direct computation and do not depend on partitioning
 
@@ -169,6 +170,29 @@ theorem C14_direct_equals_partitioned (r : Req) (parts : List (List Doc)) (t : M
   refine ⟨by rw [h1]; exact finalize_collect r _ hok, ?_⟩
   rw [← h2, h1]
   exact finalize_collect r _ hok
+
+/-- **Hypothesis-free refinement.**  For EVERY request tree and EVERY document list — multi-valued
+documents with several values in one bucket included — collecting and finalising computes
+`evalAggPV`: the direct computation in which a histogram / range / composite bucket counts one per
+value and passes the document to the sub-request once per value. -/
+theorem C14_finalize_collect_eq_evalAggPV (r : Req) (docs : List Doc) :
+    finalize r (collect (M := M) r docs) = evalAggPV M r docs :=
+  finalize_collect_pv r docs
+
+/-- the per-value specification is the per-document specification exactly when no document has
+two values in one bucket -/
+theorem C14_evalAggPV_eq_evalAgg (r : Req) (docs : List Doc) (hok : ∀ d ∈ docs, DocOK r d) :
+    evalAggPV M r docs = evalAgg M r docs :=
+  evalAggPV_eq_evalAgg r docs hok
+
+/-- any partition, any merge schedule = the per-value direct computation, with no hypothesis on
+the documents (only the no-truncation guard of terms aggregations remains) -/
+theorem C14_partitioned_equals_evalAggPV (r : Req) (parts : List (List Doc)) (t : MTree (Inter M r))
+    (hleaves : t.leaves.Perm (parts.map (collectSeg r)))
+    (hno : ∀ p ∈ parts, harvest (M := M) r (collect r p) = collect r p) :
+    finalize r (t.eval (merge r) (empty r)) = evalAggPV M r parts.flatten := by
+  rw [(C14_partition_invariant r parts t hleaves hno).1]
+  exact finalize_collect_pv r _
 
 /-- without `DocOK` the statement is false, for the model as for the code: a document with the
 values 1 and 2 in one histogram bucket of width 10 is counted twice -/
@@ -417,6 +441,9 @@ example : (extTreePlaceholders 3 (.node (.leaf []) (.leaf [1, 2, 3, 4]))).sigma 
   · exact (C14_extstats_any_schedule 3 (.node (.leaf []) (.leaf [1, 2, 3, 4]))).2.2.2.2.2 (by simp [MTree.leaves])
   · rw [(C14_extstats_any_schedule 3 (.node (.leaf []) (.leaf [1, 2, 3, 4]))).2.2.2.1]
     norm_num [extDirectM2, MTree.leaves]
+/-- the document with the values 1 and 2 in one histogram bucket: the per-value specification says 2 -/
+example : evalAggPV Int (.hist ⟨0, 10, 0, 0, Option.none, Option.none⟩ .none) [[(0, [1, 2])]] = [(0, 2, ())] := by
+  decide +kernel
 example : [0, 10, 20].Pairwise (fun a b : Int => a < b) := by decide
 example : ([1, 2, 3] : List Int).Nodup ∧ ∀ d ∈ exTDocs, ∀ k ∈ termKeys ⟨0, Option.none, 2, 2, 1, .countDesc⟩ d, k ∈ [1, 2, 3] := by
   decide
